@@ -86,6 +86,10 @@ CHECKS = {
             'For every timing on the integer grid of each configured pair, on both servers, polling and WebSocket, monitoring on/off: PINGs come exactly ping_interval after OPEN / PONG; a peer answering within ping_timeout is never dropped for timeout; '
             'a silent peer is dropped within ping_interval + 3 x ping_timeout of its last PONG with monitoring on, and at the first send after the deadline in any case (for EVERY send time, symbolic); an unserved poll is answered with an error.',
             'Trusted: CrossHair, z3, the simulated environment and its virtual integer clock (ties at exactly ping_timeout between a PONG and the poll / read timeout are not judged).', '§3 C07'),
+    'C16': (SIM + ' with client monitoring on; solver-enumerated fates for up to three sessions (alive on each transport, rejected, ended by each cause, client vanishing silently / mid-poll / mid-upgrade before or after the probe), then a bounded number of monitor sweeps on the virtual clock',
+            'For every combination of fates inside the bounds, on both servers: after interval + 3 x timeout + two sweeps the session table holds exactly the live sessions; every dead, rejected or never-issued id is a silent no-op for send() and raises KeyError from get_session / save_session / session() / transport(); '
+            'user data is visible only through its own session and is gone with it.',
+            'Trusted: CrossHair (selector enumeration), z3, the simulated environment. Reads len/keys of server.sockets (the one private observation allowed by DESIGN.md).', '§3 C16'),
 }
 
 NOT_BUILT = 'check not built yet in this round (see DESIGN.md §8 build order); not claimed until it runs'
